@@ -530,13 +530,19 @@ func (h *harness) namespaceNode(nr *nodeRef) {
 		}}
 	lh := *l
 	lh.name = "http"
+	// names of existing key files: two keys made for this purpose (their files are removed by the Delete calls below; picking among the
+	// node's other keys would remove the key of an arbitrary kid, depending on the order of the generated file names)
 	var existing []string
-	files, _ := filepath.Glob(filepath.Join(nr.keyDir, "*_private.pem"))
-	for i, f := range files {
-		if i < 2 {
-			existing = append(existing, strings.TrimSuffix(filepath.Base(f), "_private.pem"))
+	for i := 0; i < 2; i++ {
+		kid := fmt.Sprintf("c03:ns:existing:%d", i)
+		if _, _, err := ks.New(ctx, func(crypto.PublicKey) (string, error) { return kid, nil }); err != nil {
+			h.fatalf("New(%s): %v", kid, err)
+		}
+		if name := h.keyNameOf(nr, kid); name != "" {
+			existing = append(existing, name)
 		}
 	}
+	h.collectKeys()
 	names := hostileNames(r.Rand("names-node"), r.Pick(30, 360), nr.keyDir, decoys, existing)
 	r.Extra("hostile_names_node", len(names))
 	payload := []byte("c03 ns")
